@@ -13,7 +13,7 @@ NOTES = {
                 "guard no longer lets b/(2*a) through; its demonstration passes with and without the change",
 }
 rows = []
-outs = [(o, "") for o in sorted(Path("/tmp/mut").glob("C*_out"))] + [(o, "r2-") for o in sorted(Path("/tmp/mut2").glob("C*_out"))] + [(o, "r3-") for o in sorted(Path("/tmp/mut3").glob("C*_out"))] + [(o, "r4-") for o in sorted(Path("/tmp/mut4").glob("C*_out"))]
+outs = [(o, "") for o in sorted(Path("/tmp/mut").glob("C*_out"))] + [(o, "r2-") for o in sorted(Path("/tmp/mut2").glob("C*_out"))] + [(o, "r3-") for o in sorted(Path("/tmp/mut3").glob("C*_out"))] + [(o, "r4-") for o in sorted(Path("/tmp/mut4").glob("C*_out"))] + [(o, "r5-") for o in sorted(Path("/tmp/mut5").glob("C*_out"))]
 for out, tag in outs:
     prop = out.name[:3]
     for k in (1, 2, 3):
